@@ -1664,6 +1664,8 @@ func (c c03Config) String() string {
 // weight = measured relative cost, used to spread the configs over the shards
 func (c c03Config) weight() int {
 	switch {
+	case c.n == 5 && !c.reduced && c.tupleCap > 256:
+		return 250
 	case c.n == 5 && !c.reduced:
 		return 75
 	case c.n == 7:
@@ -1696,6 +1698,7 @@ func c03Configs(r *vlib.Run) []c03Config {
 
 			switch {
 			case r.Thorough() && st == base.StageINIT:
+				// n=5: all signer-subset tuples for |E|<=2 (every larger E is > f for t>=67), banded beyond
 				sizes = append(sizes, nr{5, false, 256}, nr{6, true, 0}, nr{7, true, 0})
 			case r.Thorough():
 				// ACCEPT differs from INIT only in the voteproof type wrappers
@@ -1930,7 +1933,7 @@ func TestVerifC03(t *testing.T) {
 		"the most voted fact as majority. Signer sets: all subsets of N\\{e} per expel while the tuple count " +
 		"(2^(n-1))^|E| <= cap (cap 4096 for n<=4 = everything; 256 for n=5 = |E|<=2), beyond the cap 'banded' = every " +
 		"size 0..n-1 taken live-nodes-first or expelled-nodes-first, same choice for all expels plus ONE deviating expel. " +
-		"'reduced' configs (n=6,7; n=5 in quick and for ACCEPT): sizes {th-1,th,n-1} only, deviations only from size th, " +
+		"'reduced' configs (n=6,7 INIT; n=5 in quick and for ACCEPT): sizes {th-1,th,n-1} only, deviations only from size th, " +
 		"facts {A_E,B_E}. DEVIATIONS = around bases with fully signed expels (n<=5 full configs: every assignment over " +
 		"{A_E,B_E,A}; reduced: first m nodes vote A, m in {required-1, required, all}, optionally the last votes B): " +
 		"every other claimed majority incl. DRAW / unvoted fact / fact of another point / fact listing other expels, " +
